@@ -812,9 +812,9 @@ theorem query_required (rq : Request) (hq : rq.mutation = false) (hok : Spec.fie
   | stuck => simp at h
   | outOfFuel => simp at h
 
-theorem execSerial_req (fuel : Nat) : ∀ (fields : List Field) (n i : Nat) (sched : List Nat) (S : Store),
-    ∀ v, (execSerial fuel fields n i sched S).1 = .done (.ok v) →
-      ∀ e, (e ∈ Spec.reqF fields [] ∨ Rep S.log e) → Rep (execSerial fuel fields n i sched S).2.2.log e := by
+theorem execSerial_req (st : Bool) (fuel : Nat) : ∀ (fields : List Field) (n i : Nat) (sched : List Nat) (S : Store),
+    ∀ v, (execSerial st fuel fields n i sched S).1 = .done (.ok v) →
+      ∀ e, (e ∈ Spec.reqF fields [] ∨ Rep S.log e) → Rep (execSerial st fuel fields n i sched S).2.2.log e := by
   intro fields
   induction fields with
   | nil =>
@@ -844,11 +844,16 @@ theorem execSerial_req (fuel : Nat) : ∀ (fields : List Field) (n i : Nat) (sch
           rw [h1] at a; rw [h2] at b; exact a.trans b
         have hstep := fieldStep_req [] key nn mode rerr c S S1 S2 f0 f hm
           (fun S' => complete_req_aux.1 nn c ([] ++ [.key key]) S') h1 h2
-        rw [execSerial_cons fuel key nn mode rerr c rest n i sched S S1 S2 f0 f hm h1 h2] at h ⊢
+        rw [execSerial_cons st fuel key nn mode rerr c rest n i sched S S1 S2 f0 f hm h1 h2] at h ⊢
         -- what the wait must deliver: this field's required errors, plus e if it was given as reported
         have hw := waitLoop_req [e] fuel f sched S2
-        rcases hwl : waitLoop fuel f sched S2 with ⟨w, sched', S3⟩
-        rw [hwl] at h hw
+        obtain ⟨sched0, S3', hwl, hset, _⟩ := waitSettle_settled st fuel f sched S2
+        rcases hws : waitSettle st fuel f sched S2 with ⟨w, sched', S3⟩
+        rw [hws] at h hwl hset
+        rw [hwl] at hw
+        simp only at hset hw
+        simp only [Rep, ← hset.errorsOf] at hw
+        simp only [← Rep.eq_1] at hw
         cases w with
         | done r' =>
           cases r' with
@@ -873,8 +878,8 @@ theorem mutation_required (rq : Request) (hq : rq.mutation = true)
   intro e he
   unfold execute at h ⊢
   simp only [hq, if_true] at h ⊢
-  have hs := execSerial_req (Field.invocationsL rq.fields + 1) rq.fields rq.fields.length 0 rq.sched {}
-  rcases hx : execSerial (Field.invocationsL rq.fields + 1) rq.fields rq.fields.length 0 rq.sched {} with ⟨w, s', S⟩
+  have hs := execSerial_req rq.settle (Field.invocationsL rq.fields + 1) rq.fields rq.fields.length 0 rq.sched {}
+  rcases hx : execSerial rq.settle (Field.invocationsL rq.fields + 1) rq.fields rq.fields.length 0 rq.sched {} with ⟨w, s', S⟩
   rw [hx] at h hs
   cases w with
   | done r' =>
